@@ -167,6 +167,10 @@ def user_roots():
     r += [U(D25, [Vec(u32), u64]), U(D25, [STR, STR]), U(E11, [Vec(u8), U(Z1)]), U(E11, [u16, STR])]
     # alignment units that are not a power of two (size_of of a range of a 12-byte type)
     r += [Vec(Rg('RangeTo', U(Z12))), U(Z22), Vec(U(Z22)), Arr(Rg('RangeToInclusive', U(Z12)), 2)]
+    # arrays (and other blocks) of elements whose alignment unit (a power of two) exceeds their alignment
+    rt8, rti8 = Rg('RangeTo', Tup(u32, 2)), Rg('RangeToInclusive', Arr(u16, 4))
+    r += [Arr(rt8, 2), Opt(Arr(rt8, 2)), Opt(Opt(Arr(rt8, 2))), Opt(Opt(Opt(Arr(rt8, 2)))), U(PRE, [Arr(rt8, 3)]), U(PRE, [Arr(rti8, 2)]),
+          Arr(Arr(rti8, 2), 2), U(D2, [Arr(rti8, 1)]), U(PRE, [rt8]), U(PRE, [Vec(rt8)]), Vec(rti8), Bd(Arr(rt8, 1)), U(PRE, [Tup(rt8, 2)])]
     return r
 
 
